@@ -330,6 +330,13 @@ func (p *balloons) ReleaseResources(c cache.Container) error {
 		}
 	} else {
 		log.Debug("ReleaseResources: balloon-less container %s, nothing to release", c.PrettyName())
+		// A reconfiguration replaces all balloons before containers are released
+		// from them: the container may still hold memory it got in its old balloon.
+		if _, ok := p.memAllocator.AssignedZone(c.GetID()); ok {
+			if err := p.memAllocator.Release(c.GetID()); err != nil {
+				log.Error("ReleaseResources: failed to release memory for %s: %v", c.PrettyName(), err)
+			}
+		}
 	}
 	return nil
 }
